@@ -26,24 +26,57 @@ type c06Case struct {
 	Requested []int
 	Par       int
 	Yields    []int
+	// DescPlus1-1, when >= 0, is the file that plays google/protobuf/descriptor.proto: the resolver then
+	// overrides the standard one and every other file that does not import it explicitly depends on it implicitly.
+	DescPlus1 int
 }
 
+const c06DescPath = "google/protobuf/descriptor.proto"
+
 func c06Name(i int) string { return fmt.Sprintf("f%d.proto", i) }
+
+func (c c06Case) name(i int) string {
+	if i == c.DescPlus1-1 {
+		return c06DescPath
+	}
+	return fmt.Sprintf("f%d.proto", i)
+}
+
+// eff returns the effective imports of file i: the explicit ones plus the implicit descriptor.proto edge.
+func (c c06Case) eff(i int) []int {
+	d := c.DescPlus1 - 1
+	if d < 0 || i == d {
+		return c.Edges[i]
+	}
+	for _, w := range c.Edges[i] {
+		if w == d {
+			return c.Edges[i]
+		}
+	}
+	return append(append([]int{}, c.Edges[i]...), d)
+}
 
 func (c c06Case) files() map[string]string {
 	files := map[string]string{}
 	for i := 0; i < c.N; i++ {
 		var sb strings.Builder
-		sb.WriteString("syntax = \"proto3\";\n")
+		if i == c.DescPlus1-1 {
+			sb.WriteString("syntax = \"proto2\";\npackage google.protobuf;\n")
+		} else {
+			sb.WriteString("syntax = \"proto3\";\n")
+		}
 		for _, j := range c.Edges[i] {
 			if j >= c.N {
 				sb.WriteString("import \"missing.proto\";\n")
 			} else {
-				fmt.Fprintf(&sb, "import %q;\n", c06Name(j))
+				fmt.Fprintf(&sb, "import %q;\n", c.name(j))
 			}
 		}
 		fmt.Fprintf(&sb, "message M%d {}\n", i)
-		files[c06Name(i)] = sb.String()
+		if i == c.DescPlus1-1 {
+			sb.WriteString("message FileOptions { optional string foo = 1; extensions 1000 to max; }\n")
+		}
+		files[c.name(i)] = sb.String()
 	}
 	return files
 }
@@ -54,7 +87,7 @@ func (c c06Case) model() (cycle, missing bool) {
 	var dfs func(v int)
 	dfs = func(v int) {
 		state[v] = 1
-		for _, w := range c.Edges[v] {
+		for _, w := range c.eff(v) {
 			if w >= c.N {
 				missing = true
 				continue
@@ -98,12 +131,12 @@ func c06Check(c c06Case, r *ev.Rec) error {
 	files := c.files()
 	var names []string
 	for _, i := range c.Requested {
-		names = append(names, c06Name(i))
+		names = append(names, c.name(i))
 	}
 	wantCycle, wantMissing := c.model()
 	yields := map[string]int{}
 	for i, y := range c.Yields {
-		yields[c06Name(i)] = y
+		yields[c.name(i)] = y
 	}
 	run := c05Run{Par: c.Par, Order: names, Yields: yields}
 	// 1. collect-all reporter
@@ -146,13 +179,15 @@ func c06Check(c c06Case, r *ev.Rec) error {
 		parts := strings.Split(m[1], " -> ")
 		idx := make([]int, len(parts))
 		for k, p := range parts {
-			if _, err := fmt.Sscanf(strings.Trim(p, `"`), "f%d.proto", &idx[k]); err != nil || idx[k] >= c.N {
+			if strings.Trim(p, `"`) == c06DescPath && c.DescPlus1 > 0 {
+				idx[k] = c.DescPlus1 - 1
+			} else if _, err := fmt.Sscanf(strings.Trim(p, `"`), "f%d.proto", &idx[k]); err != nil || idx[k] >= c.N {
 				return fmt.Errorf("cycle message names an unknown file: %s", msg)
 			}
 		}
 		for k := 0; k+1 < len(idx); k++ {
 			ok := false
-			for _, w := range c.Edges[idx[k]] {
+			for _, w := range c.eff(idx[k]) {
 				ok = ok || w == idx[k+1]
 			}
 			if !ok {
@@ -185,6 +220,9 @@ func c06Check(c c06Case, r *ev.Rec) error {
 	if wantCycle {
 		lab = "cyclic"
 	}
+	if c.DescPlus1 > 0 {
+		r.Label("custom-descriptor.proto:" + lab)
+	}
 	r.Case(ev.JSONFP(c), (wantCycle || edges >= 3) && c.Par >= 2, lab, fmt.Sprintf("missing=%v", wantMissing), fmt.Sprintf("par=%d", c.Par))
 	if wantCycle && c.Par >= 2 && r.WantSample() {
 		r.Sample(c)
@@ -200,14 +238,14 @@ func firstLinesOf(s string, n int) string {
 	return strings.Join(l, "\n")
 }
 
-const c06Rule = "directed import graphs (self-imports, cycles of any length, diamonds, optional missing files) over trivially valid files; a subset is requested; compiled with a collect-all reporter and with the default reporter under a generated MaxParallelism and resolver yields, each under a 20 s watchdog (a compile takes milliseconds); oracle (reference model: DFS from the requested files): an error containing 'cycle found in imports' is reported <=> a cycle is reachable (when a missing file is also reachable only => is asserted), its file sequence is a walk of the graph that closes on itself, compile fails <=> a cycle or a missing file is reachable, and the call returns; non-trivial = (cyclic or >=3 edges) and parallelism >=2; distinct by case"
+const c06Rule = "directed import graphs (self-imports, cycles of any length, diamonds, optional missing files, optionally one file playing an overriding google/protobuf/descriptor.proto on which every other file then depends implicitly) over trivially valid files; a subset is requested; compiled with a collect-all reporter and with the default reporter under a generated MaxParallelism and resolver yields, each under a 20 s watchdog (a compile takes milliseconds); oracle (reference model: DFS from the requested files): an error containing 'cycle found in imports' is reported <=> a cycle is reachable (when a missing file is also reachable only => is asserted), its file sequence is a walk of the graph that closes on itself, compile fails <=> a cycle or a missing file is reachable, and the call returns; non-trivial = (cyclic or >=3 edges) and parallelism >=2; distinct by case"
 
 func TestC06_Enum(t *testing.T) {
 	n := 3
 	if ev.Thorough() {
 		n = 4
 	}
-	ev.RunEnum(t, ev.Spec[c06Case]{ID: "C06", Name: "Enum", Rule: fmt.Sprintf("ALL directed graphs on <=%d files (incl. self-loops), each requested-subset shape {first file, last file, all files}, parallelism 1 and 2 (thorough: also 4); ", n) + c06Rule, Check: c06Check},
+	ev.RunEnum(t, ev.Spec[c06Case]{ID: "C06", Name: "Enum", Rule: fmt.Sprintf("ALL directed graphs on <=%d files (incl. self-loops), each requested-subset shape {first file, last file, all files}, parallelism 1 and 2 (thorough: also 4), and (<=3 files) each choice of which file, if any, is the overriding descriptor.proto; ", n) + c06Rule, Check: c06Check},
 		true, func(yield func(c06Case) bool) {
 			pars := []int{1, 2}
 			if ev.Thorough() {
@@ -229,8 +267,13 @@ func TestC06_Enum(t *testing.T) {
 					}
 					for _, rq := range reqs {
 						for _, p := range pars {
-							if !yield(c06Case{N: nn, Edges: edges, Requested: rq, Par: p}) {
-								return
+							for d := 0; d <= nn; d++ {
+								if d > 0 && nn > 3 {
+									break
+								}
+								if !yield(c06Case{N: nn, Edges: edges, Requested: rq, Par: p, DescPlus1: d}) {
+									return
+								}
 							}
 						}
 					}
@@ -255,6 +298,9 @@ func TestC06_Random(t *testing.T) {
 					c.Edges[i] = append(c.Edges[i], n)
 				}
 				c.Yields = append(c.Yields, gen.Uniform(t, 40, "y"))
+			}
+			if gen.Pct(t, 25, "desc") {
+				c.DescPlus1 = 1 + gen.Uniform(t, n, "descidx")
 			}
 			perm := rapid.Permutation(seqInts(n)).Draw(t, "perm")
 			c.Requested = perm[:1+gen.Uniform(t, n, "nreq")]
